@@ -3,7 +3,7 @@
 import re, random
 from . import common as C
 from .runner import Prop, Batch
-from .frpgen import Profile, gen_scripts
+from .frpgen import Profile, gen_scripts, is_K1
 
 
 def strip_ann(lines):
@@ -47,6 +47,11 @@ class FrpProp(Prop):
     def extra_oracle(self, lines, out):
         return None
 
+    def known_class(self, batch, name, lines, out, why):
+        if is_K1(lines):
+            return "K1"
+        return None
+
     spec_is_oracle = True
 
     def run_model(self, batch, scripts, iout, shards=C.NPROC):
@@ -57,6 +62,30 @@ class FrpProp(Prop):
             io = strip_ann(iout.get(name, []))
             guided.append((name, ["%s || %s" % (l, io[k]) if k < len(io) else l for k, l in enumerate(lines)]))
         return C.run_sharded(C.MODEL_RUN, "frp-check", guided, batch.timeout, shards)
+
+    def well_formed(self, lines):
+        """balanced brackets, and every loop is closed inside the block that created it"""
+        d = 0
+        open_loops = []      # (slot, depth)
+        for l in lines:
+            w = l.split()
+            if not w:
+                continue
+            if w[0] == "{":
+                d += 1
+            elif w[0] == "}":
+                if any(dd == d for _, dd in open_loops):
+                    return False
+                d -= 1
+                if d < 0:
+                    return False
+            elif w[0] in ("sloop", "cloop"):
+                if d == 0:
+                    return False
+                open_loops.append((w[1], d))
+            elif w[0] in ("sloop_close", "cloop_close"):
+                open_loops = [(h, dd) for h, dd in open_loops if h != w[1]]
+        return d == 0 and not open_loops
 
     def agree(self, batch, name, lines, mout, io):
         io2 = strip_ann(io)
@@ -145,9 +174,26 @@ class C13(FrpProp):
                       p_sample=0.8, p_def_in_txn=0.25, listen_cells=0.6, n_txn=(4, 12))
 
 
+def quiescence_oracle(lines, out):
+    """after every script line that ends outside any transaction: nothing pending, no stream holds an event"""
+    for k, o in enumerate(out):
+        a = anns(o)
+        if "d" in a and a["d"] == "0":
+            if a.get("q") != "0,0,0,0" or a.get("cc") != "0":
+                return "line %d (%s): context not quiescent after the outermost close: queues(changed,pre_eot,pre_post,post)=%s collect-counter=%s" % (
+                    k + 1, lines[k] if k < len(lines) else "?", a.get("q"), a.get("cc"))
+            if a.get("f") != "0":
+                return "line %d (%s): %s stream(s) still hold an event after the outermost close" % (
+                    k + 1, lines[k] if k < len(lines) else "?", a.get("f"))
+    return None
+
+
 class C14(FrpProp):
     pid = "C14"
     tag = "c14"
+
+    def extra_oracle(self, lines, out):
+        return quiescence_oracle(lines, out)
     profile = Profile(w=W(), p_block=0.9, p_nested=0.4, p_scoped=0.4, p_def_in_txn=0.2, n_txn=(4, 12))
 
 
@@ -178,9 +224,58 @@ class C06(FrpProp):
                       n_txn=(5, 14), p_listen_late=0.3)
 
 
+DEF_OPS = {"sink", "sink_co", "csink", "const", "never", "map", "map_to", "filter", "filter_opt", "merge", "or_else", "snapshot",
+           "snapshot1", "gate", "once", "hold", "hold_lazy", "updates", "value", "map_c", "lift", "accum", "accum_lazy", "collect",
+           "collect_lazy", "switch_s", "switch_c", "sloop", "cloop", "defer", "split", "router", "route"}
+
+
+def everything_dropped(lines):
+    """the script prefix dropped every handle, unlistened and dropped every listener, dropped its lazies, closed
+    every transaction, and ended with an empty transaction followed by a collection"""
+    live, ls, lazies, depth, scoped = set(), {}, False, 0, set()
+    for l in lines:
+        w = l.split()
+        if not w:
+            continue
+        if w[0] in DEF_OPS:
+            live.add(w[1])
+        elif w[0] == "clone":
+            live.add(w[2])
+        elif w[0] == "drop":
+            live.discard(w[1])
+        elif w[0] in ("listen", "listen_weak", "listen_c"):
+            ls[w[1]] = "on"
+        elif w[0] == "unlisten" and w[1] in ls:
+            ls[w[1]] = "off"
+        elif w[0] in ("drop_l", "drop_weak") and ls.get(w[1]) in ("off",) or (w[0] == "drop_weak" and w[1] in ls):
+            ls.pop(w[1], None)
+        elif w[0] in ("lazy_new", "sample_lazy", "clone_lazy"):
+            lazies = True
+        elif w[0] == "drop_lazies":
+            lazies = False
+        elif w[0] == "{":
+            depth += 1
+        elif w[0] == "}":
+            depth -= 1
+        elif w[0] == "tnew":
+            scoped.add(w[1])
+        elif w[0] in ("tclose", "tdrop"):
+            scoped.discard(w[1])
+    tail = [l.strip() for l in lines[-3:]]
+    return (not live and not ls and not lazies and depth == 0 and not scoped and tail == ["{", "}", "gc"])
+
+
 class C07(FrpProp):
     pid = "C07"
     tag = "c07"
+
+    def extra_oracle(self, lines, out):
+        for k, (l, o) in enumerate(zip(lines, out)):
+            if l.strip() == "nodes" and everything_dropped(lines[:k]):
+                n = anns(o).get("n")
+                if n is not None and n != "0":
+                    return "line %d: %s node(s) still alive after every handle was dropped, every listener unlistened and a collection ran" % (k + 1, n)
+        return None
     profile = Profile(w=W(sloop=4, cloop=4, switch_s=4, switch_c=4, accum=6, collect=5, defer=2, router=2), p_mem=0.3,
                       n_txn=(0, 8), final_teardown=True)
 
